@@ -16,27 +16,29 @@ REQUIRE = ("c03", "r8_require", "C03.R8", "a requirement is met by state of any 
 SUGAR = ("c01", "r6_named_accessors", "C01.R6", "State's named accessors (populations_mut, random_mut, iterations, best_individual, ...) are the registry accessors of the named type")
 OWNKEYS = ("c16", "r8_state_keys", "C16.R8", "a component reads its run-time parameters and its evaluator / memories under its own instantiation and identifier")
 EQUALITY = ("c07", "r7_individual_equality", "C07.R7", "two individuals are equal iff solution and objective are equal")
+INNER = ("c01", "r7_inner_state", "C01.R7", "a pushed scope is popped, and the caller's registry restored, on every exit of with_inner_state - also when the inner code fails")
+EVALUATORS = ("c06", "r2_evaluators", "C06.R2", "an evaluation writes f(its own solution) into every individual of the slice, evaluated before or not")
 EVALSTEP = ("c06", "r1_population_evaluator", "C06.R1", "the evaluation step hands the whole top population to the evaluator held under the component's own identifier")
 FIREFLY = ("c06", "r7_firefly", "C06.R7", "the firefly update re-evaluates every moved firefly with the evaluator held under its own identifier")
 
 DEPS = {
-    "C02": [REGISTRY, SUGAR],
+    "C02": [REGISTRY, SUGAR, INNER],
     "C03": [REGISTRY, SCOPES, SUGAR],
-    "C04": [SUGAR],
-    "C05": [SUGAR, OWNKEYS, EVALSTEP, FIREFLY],
+    "C04": [SUGAR, REGISTRY],
+    "C05": [SUGAR, OWNKEYS, EVALSTEP, FIREFLY, REGISTRY],
     "C06": [REGISTRY, STACK, SUGAR, OWNKEYS],
-    "C07": [REGISTRY, STACK, SUGAR, OWNKEYS],
+    "C07": [REGISTRY, STACK, SUGAR, OWNKEYS, EVALUATORS],
     "C08": [REGISTRY, SUGAR],
     "C10": [REGISTRY, SUGAR],
-    "C11": [STACK, SUGAR],
-    "C12": [STACK, SUGAR],
+    "C11": [STACK, SUGAR, REGISTRY, EQUALITY],
+    "C12": [STACK, SUGAR, REGISTRY],
     "C13": [STACK, REGISTRY, SUGAR, OWNKEYS],
-    "C14": [STACK, SUGAR],
+    "C14": [STACK, SUGAR, REGISTRY],
     "C15": [REGISTRY, SUGAR],
     "C16": [REGISTRY, STACK, ORDER, REQUIRE, EQUALITY, SUGAR],
     "C17": [STACK, REGISTRY, SUGAR, OWNKEYS],
     "C18": [STACK, ORDER, REGISTRY, SUGAR, OWNKEYS],
-    "C19": [STACK, ORDER, REGISTRY, SUGAR, OWNKEYS],
+    "C19": [STACK, ORDER, REGISTRY, SUGAR, OWNKEYS, EVALUATORS],
     "C20": [STACK, REGISTRY, EQUALITY, SUGAR, OWNKEYS],
 }
 
